@@ -251,10 +251,10 @@ impl<Ef: LabEffect> Ctx<Ef> {
         }
     }
 
-    fn spawn(&self, script: Script) -> Handle {
+    fn spawn(&self, script: Script, tx: Option<Tx>) -> Handle {
         match self {
             Ctx::Cmd(c) => {
-                let h = c.spawn(move |ctx| run_script::<Ef>(Ctx::Cmd(ctx), script));
+                let h = c.spawn(move |ctx| run_script_with::<Ef>(Ctx::Cmd(ctx), script, tx));
                 let h2 = h.clone();
                 Handle {
                     abort: Box::new(move || h2.abort()),
@@ -264,11 +264,12 @@ impl<Ef: LabEffect> Ctx<Ef> {
             Ctx::Legacy { op, .. } => {
                 // the legacy API has no join handles: completion is signalled through a
                 // shared future, abort is not available (never generated)
+                let me = self.clone();
+                let pipe = tx;
                 let (tx, rx) = futures::channel::oneshot::channel::<()>();
                 let rx = rx.map(|_| ()).shared();
-                let me = self.clone();
                 op.spawn(async move {
-                    run_script::<Ef>(me, script).await;
+                    run_script_with::<Ef>(me, script, pipe).await;
                     let _ = tx.send(());
                 });
                 Handle {
@@ -303,7 +304,13 @@ impl Future for YieldN {
     }
 }
 
+type Tx = futures::channel::mpsc::UnboundedSender<u64>;
+
 pub fn run_script<Ef: LabEffect>(ctx: Ctx<Ef>, script: Script) -> BoxFuture<'static, ()> {
+    run_script_with(ctx, script, None)
+}
+
+pub fn run_script_with<Ef: LabEffect>(ctx: Ctx<Ef>, script: Script, tx: Option<Tx>) -> BoxFuture<'static, ()> {
     async move {
         let mut regs: Vec<u64> = Vec::new();
         let mut streams: Vec<Option<BoxStream<'static, u64>>> = Vec::new();
@@ -348,7 +355,18 @@ pub fn run_script<Ef: LabEffect>(ctx: Ctx<Ef>, script: Script) -> BoxFuture<'sta
                     })
                     .await
                 }
-                Instr::Spawn { script } => handles.push(ctx.spawn(script)),
+                Instr::Spawn { script } => handles.push(ctx.spawn(script, None)),
+                Instr::SpawnPipe { script } => {
+                    let (ptx, prx) = futures::channel::mpsc::unbounded::<u64>();
+                    handles.push(ctx.spawn(script, Some(ptx)));
+                    streams.push(Some(prx.boxed()));
+                }
+                Instr::Send { reg } => {
+                    if let Some(tx) = &tx {
+                        // a closed channel (consumer gone) is not an error
+                        let _ = tx.unbounded_send(reg.map(|r| regs[r]).unwrap_or(0));
+                    }
+                }
                 Instr::Join { handle } => (handles[handle].join)().await,
                 Instr::Abort { handle } => (handles[handle].abort)(),
                 Instr::JoinAll { sites } => {
